@@ -1056,6 +1056,10 @@ func (b *bitstream) readN(n uint64) ([]byte, error) {
 		return nil, nil
 	}
 
+	if n > readNChunk {
+		return b.readNLarge(n)
+	}
+
 	bs := make([]byte, n)
 	actual, err := io.ReadFull(b.in, bs)
 	b.pos += uint64(actual)
@@ -1068,6 +1072,33 @@ func (b *bitstream) readN(n uint64) ([]byte, error) {
 	}
 
 	return bs, nil
+}
+
+// readNChunk is the largest declared length for which readN allocates the
+// whole result up front.
+const readNChunk = 64 * 1024
+
+// ReadNLarge reads n bytes for a large declared length. The length comes from
+// the (untrusted) input, so the result grows with the data actually present
+// instead of being allocated from the declared length.
+func (b *bitstream) readNLarge(n uint64) ([]byte, error) {
+	limit := n
+	if limit > math.MaxInt64 {
+		limit = math.MaxInt64
+	}
+
+	var buf bytes.Buffer
+	actual, err := io.CopyN(&buf, b.in, int64(limit))
+	b.pos += uint64(actual)
+
+	if err == io.EOF || (err == nil && uint64(actual) < n) {
+		return nil, &UnexpectedEOFError{b.pos}
+	}
+	if err != nil {
+		return nil, &IOError{err}
+	}
+
+	return buf.Bytes(), nil
 }
 
 // Read1 reads the next byte of input from the underlying stream, returning
